@@ -2,6 +2,7 @@
 import re
 import absint
 from engines import kind_elements, is_tracing
+from engines import check_complete_iteration
 from prov import Prov, params_of, field_names
 
 CLAIM = ("(ROLE) in both inner enrichment functions Hypergeometric::new receives (N = size of the background, K = background count of the annotation, "
@@ -184,6 +185,8 @@ def run(ck, prog, ctx):
                 ck.violation("ROLE", nm + "/record/enrichment-integer", "%s: the fold enrichment is computed with an INTEGER division (line %s): the quotient is truncated before the conversion to float" % (nm, int_ops[0].line), where=b.where(int_ops[0].line))
             ck.ob("ROLE", nm + "/record/enrichment", d == want, "%s: fold enrichment has dimension %s (expected k*N/(n*K))" % (nm, d if d is not None else "unknown (non-float or unrecognised arithmetic)"), where=b.where(t.line))
     ck.floor("ROLE", "inner enrichment functions", n_inner, 2)
+
+    check_complete_iteration(ck, "ROLE", prog, INNER + ["stats::calculate_counts"] + [b.id for b in prog.find(r"^stats::SampleSet::<.*>::(gene|omim_disease|orpha_disease)$")], "the sample / the annotations of a term")
 
     # ------------------------------------------------------------------ wrappers
     for fid, ctor in sorted(WRAPPERS.items()):
